@@ -163,8 +163,8 @@ theorem logon_done (g0 : G8) (s x z : Sess) (nx : SState) (hl : s.st.isLogon = t
     show (g8Of g0 (z.setSt nx)).sentLogout = false
     rw [g8Of_setSt, hg, c8o_onLogon]; exact this
 
-theorem h8_shutdownWithReason {b : Bool} (g0 : G8) (s x : Sess) (incr : Bool) (h : P b g0 s x) :
-    H8 g0 s (shutdownWithReason x incr) := by
+theorem h8_shutdownWithReason {b : Bool} (g0 : G8) (s x : Sess) (m : InMsg) (incr : Bool) (h : P b g0 s x) :
+    H8 g0 s (shutdownWithReason x m incr) := by
   unfold shutdownWithReason
   dsimp only
   have h' := h.weaken
@@ -190,8 +190,8 @@ theorem h8_logonFixMsgIn (g0 : G8) (s : Sess) (m : InMsg) (hl : s.st.isLogon = t
       subst he
       split
       · rename_i heq; cases heq
-      · rename_i heq; cases heq; exact h8_shutdownWithReason g0 s _ true hp
-      · rename_i heq; cases heq; exact h8_shutdownWithReason g0 s _ false hp
+      · rename_i heq; cases heq; exact h8_shutdownWithReason g0 s _ m true hp
+      · rename_i heq; cases heq; exact h8_shutdownWithReason g0 s _ m false hp
       · rename_i heq; cases heq; cases hnt
       · rename_i heq; cases heq; exact H8.down hp
     · have hy : Fr x (((x.setSentReset false).emit (.armPeer (1200 * x.hb))).emit .onLogon) := ⟨rfl, rfl, rfl, rfl, rfl⟩
